@@ -523,3 +523,50 @@ func derivesFrom(v ssa.Value, pathRe string) bool {
 	}
 	return walk(v, 0)
 }
+
+// GuardedReturnVal (rule G): a return whose i-th result may be the value matching valRe (a constant matching it,
+// or any non-constant value; phis are resolved along the incoming edge) is reachable only through each guard.
+func (c *Ctx) GuardedReturnVal(fn *ssa.Function, desc string, i int, valRe string, guards ...Guard) {
+	if fn == nil {
+		return
+	}
+	for _, g := range guards {
+		g := g
+		may := func(in ssa.Instruction, path []*ssa.BasicBlock) bool {
+			r, ok := in.(*ssa.Return)
+			if !ok || i >= len(r.Results) {
+				return false
+			}
+			v := resolvePhi(r.Results[i], path)
+			if k, ok := v.(*ssa.Const); ok {
+				return re(valRe).MatchString(pathOf(k))
+			}
+			// returning the truth value of one of the guard's own alternatives is being guarded by it
+			for _, alt := range g.Alts {
+				if m, pt := matchCond(alt, v); m && pt {
+					return false
+				}
+			}
+			return true
+		}
+		key := fnName(fn) + "/" + desc + " <= " + g.Desc
+		sites := c.P.guardEdges(fn, g)
+		if len(sites) == 0 {
+			c.Bad("G", key, fn.Pos(), 0, fmt.Sprintf("guard '%s' not found in %s", g.Desc, fnName(fn)))
+			continue
+		}
+		rm := map[edge]bool{}
+		var gd []string
+		for _, s := range sites {
+			rm[s.Pass] = true
+			gd = append(gd, s.Desc)
+		}
+		w := &Walker{P: c.P, Removed: rm, TargetAt: may}
+		hit, found := w.Reach(fn, fn.Blocks[0], 0, nil)
+		if found {
+			c.Bad("G", key, instrPos(hit.Instr), len(sites)+1, fmt.Sprintf("%s at %s is reachable without passing guard '%s' (guards seen: %s); path %s", describeInstr(hit.Instr), c.P.Pos(instrPos(hit.Instr)), g.Desc, strings.Join(gd, " | "), c.P.pathStr(hit.Path)))
+		} else {
+			c.OK("G", key, fn.Pos(), len(sites)+1, "only through: "+strings.Join(gd, " | "))
+		}
+	}
+}
